@@ -222,7 +222,7 @@ func cmdCheck(args []string) {
 		return nil
 	}
 
-	os.MkdirAll(filepath.Join(verifDir, "evidence", "replays"), 0o755)
+	os.MkdirAll(filepath.Join(evidenceDir(), "replays"), 0o755)
 	var violations []string
 	engineErr := false
 	discharged, total, knownCount := 0, 0, 0
@@ -359,10 +359,11 @@ func cmdCheck(args []string) {
 		"violations":  len(violations),
 	}
 	b, _ := json.MarshalIndent(ev, "", " ")
-	os.WriteFile(filepath.Join(verifDir, "evidence", id+".json"), b, 0o644)
+	os.WriteFile(filepath.Join(evidenceDir(), id+".json"), b, 0o644)
 
 	fmt.Printf("govc: property %s tier %s: %d units, %d/%d obligations discharged, %d known finding(s), %d violation(s), %.1fs (load %.1fs, solve %.1fs)\n",
 		id, *tier, len(units), discharged, total, len(knownLines), len(violations), wall, loadS, solveS)
+	os.RemoveAll(scratch) // os.Exit below skips the deferred removal
 	if engineErr {
 		os.Exit(2)
 	}
@@ -406,7 +407,7 @@ func firstLines(s string, n int) string {
 
 // reportViolation writes the replay file, tries to replay the model on the real code and prints the VIOLATION line.
 func reportViolation(prog *Program, id string, o *Obligation, u *Unit) string {
-	path := filepath.Join(verifDir, "evidence", "replays", id+"-"+sanitize(o.Name)+".json")
+	path := filepath.Join(evidenceDir(), "replays", id+"-"+sanitize(o.Name)+".json")
 	reason := ""
 	switch o.Status {
 	case "sat":
@@ -480,6 +481,16 @@ func replayFromFile(path string) int {
 	fmt.Println("no replayable input recorded (no-failing-input-found); solver output:")
 	fmt.Println(rec["solver_output"])
 	return 1
+}
+
+// evidenceDir is /verif/evidence; the development tools that run a check against a deliberately changed tree
+// (tools/try_seed.sh) point GOVC_EVIDENCE_DIR at a scratch directory so that the committed evidence always
+// describes the unchanged tree.
+func evidenceDir() string {
+	if d := os.Getenv("GOVC_EVIDENCE_DIR"); d != "" {
+		return d
+	}
+	return filepath.Join(verifDir, "evidence")
 }
 
 func uncoveredText(id string) string {
